@@ -135,6 +135,7 @@ for _t in ("prod_sum", "mixture"):
 def _(vc):
     tpl = template(vc, "prod_sum", "categorical")
     Z = vc.set("Z")
+    vc.cardinality_abstraction_is_exact("the arbitrary set is only tested for emptiness and inclusion")
     foreign = vc.int("w")
     empty = Z.arr == EMPTY
     has_foreign = z3.And(z3.Select(Z.arr, foreign), *[foreign != v for v in tpl.vars])
